@@ -498,6 +498,50 @@ theorem detect_norm : ∀ (n : Nat) (x : T), opens x = n → wf x none → ∀ f
       obtain ⟨x', hw', ho', ht', hd'⟩ := ih x1 (by omega) hw1 fuel
       exact ⟨x', hw', ho', ht'.trans ht1, by rw [← hd', ← hd]; rfl⟩
 
+/-! ### the same behind a plain prefix (the component symbol) -/
+
+theorem detect_step_pre (pre : Str) (hp : BPlain pre) (x : T) (hw : wf x none) (L j : Nat)
+    (hv : viol x pre.length = some (L, j)) (fuel : Nat) :
+    ∃ x', step x = some x' ∧ detect '{' '}' (fuel+1) (pre ++ rT x) = detect '{' '}' fuel (pre ++ rT x') := by
+  have hc := wf_none_closed x hw
+  have hpc : Validate.parCount '{' '}' (pre ++ rT x) 0 = 0 := by
+    rw [parCountB_nobrace _ _ _ hp.noBrace]
+    have := parCount_rT x none hw [] 0
+    simpa [Validate.parCount] using this
+  have hsc : scan '{' '}' (pre ++ rT x) 0 {} = .rewrite L j := by
+    have e : pre ++ rT x = pre ++ (rT x ++ []) := by simp
+    rw [e, scan_plainB _ _ _ _ hp]
+    have := (((scan_wf x none hw).1 hc) (0 + pre.length) {} (by simp) rfl).2 L j (by simpa using hv) []
+    simpa using this
+  obtain ⟨x', hx', he⟩ := rewrite_is_step x pre [] L j hv
+  refine ⟨x', hx', ?_⟩
+  rw [detect]
+  simp only [hpc, hsc]
+  simp only [ne_eq, not_true_eq_false, if_false]
+  have he' : rewriteExpr '{' '}' (pre ++ rT x) L j = pre ++ rT x' := by simpa using he
+  rw [he']
+
+theorem detect_norm_pre (pre : Str) (hp : BPlain pre) : ∀ (n : Nat) (x : T), opens x = n → wf x none → ∀ fuel,
+    ∃ x', wf x' none ∧ opens x' = 0 ∧ toBT x' = toBT x
+      ∧ detect '{' '}' (fuel + n) (pre ++ rT x) = detect '{' '}' fuel (pre ++ rT x') := by
+  intro n
+  induction n with
+  | zero => intro x h0 hw fuel; exact ⟨x, hw, h0, rfl, rfl⟩
+  | succ n ih =>
+    intro x hn hw fuel
+    have hc := wf_none_closed x hw
+    cases hv : viol x pre.length with
+    | none =>
+      have := viol_none_opens x none pre.length hw hv
+      simp [hc] at this
+      omega
+    | some v =>
+      obtain ⟨L, j⟩ := v
+      obtain ⟨x1, hx1, hd⟩ := detect_step_pre pre hp x hw L j hv (fuel + n)
+      obtain ⟨hw1, ht1, ho1, _⟩ := step_preserves x none x1 hw hx1
+      obtain ⟨x', hw', ho', ht', hd'⟩ := ih x1 (by omega) hw1 fuel
+      exact ⟨x', hw', ho', ht'.trans ht1, by rw [← hd', ← hd]; rfl⟩
+
 theorem opens_le_length (x : T) : opens x ≤ (rT x).length := by
   induction x with
   | one hdr flat => simp [opens]
@@ -542,5 +586,32 @@ theorem parseB_chains (o : Op3) (l r : T) (hw : wf (.bin o true l r) none) (nest
       (fun o' l' r' h a b => parseB_render_aux _ hr' o' l' r' h (f+1) a b true (by omega))
     rw [h0] at this
     exact this
+
+/-- **Chains of nested statements behind the component symbol** — the text as
+    `parseNestedStatementCombination` passes it, e.g. `Cac{Cac{…} [AND] Cac{…} [AND] Cac{…}}`. -/
+theorem parseB_with_symbol_chains (hdr : Str) (o : Op3) (l r : T) (hw : wf (.bin o true l r) none)
+    (hh : SWord hdr) (hb : BPlain hdr) (nested : Bool) (fuel : Nat) (hf : depthB (toBT (.bin o true l r)) ≤ fuel) :
+    parse true fuel (hdr ++ rT (.bin o true l r)) nested
+      = .res ⟨.comb o.str [hdr] [] (treeOfB (toBT l)) (treeOfB (toBT r)), hdr ++ renderB (toBT (.bin o true l r)), cNoError⟩ := by
+  obtain ⟨x, hx⟩ : ∃ x, x = T.bin o true l r := ⟨_, rfl⟩
+  rw [← hx] at hw hf ⊢
+  have hE : toBT x = .op o (toBT l) (toBT r) := by rw [hx]; rfl
+  have hdl : 1 ≤ depthB (toBT l) := by cases (toBT l) <;> simp [depthB]
+  rw [hE] at hf
+  have hf' := hf
+  simp only [depthB] at hf'
+  obtain ⟨f, rfl⟩ : ∃ f, fuel = f + 2 := ⟨fuel - 2, by omega⟩
+  rw [parseB_unfold]
+  obtain ⟨k, hk⟩ : ∃ k, (hdr ++ rT x).length + 1 = k + opens x :=
+    ⟨(hdr ++ rT x).length + 1 - opens x, by have := opens_le_length x; simp; omega⟩
+  obtain ⟨x', hw', ho', ht', hd'⟩ := detect_norm_pre hdr hb (opens x) x rfl hw k
+  obtain ⟨hbk, hr⟩ := closed_is_bok x' none hw' ho'
+  rw [hk, hd', hr, ht', hE]
+  rw [ht', hE] at hbk
+  cases hbk with
+  | op _ _ _ hl hr' =>
+    obtain ⟨rest, hd⟩ := detectB_with_symbol hdr o (toBT l) (toBT r) (.op o _ _ hl hr') hb k
+    rw [hd]
+    exact afterDetectB_with_symbol hdr o (toBT l) (toBT r) hl hr' hh nested f hf rest
 
 end IGVerif.Combo.BN
